@@ -447,3 +447,44 @@ func reachingStores(cell *ssa.Alloc, at ssa.Instruction) (out []*ssa.Store, zero
 	back(at.Block(), instrIndex(at)-1)
 	return out, zero
 }
+
+// lenZeroAtom: name denotes "len(x) == 0" for a length expression satisfying lenPred; every comparison of
+// that length with a constant that is equivalent to emptiness (== 0, <= 0, < 1, 0 >= len, 1 > len) or to its
+// negation (!= 0, > 0, >= 1, 0 < len, 1 <= len) is recognised (lengths are non-negative).
+func lenZeroAtom(name string, lenPred vpred) atomDef {
+	return atomDef{name, func(v ssa.Value) (bool, bool) {
+		bo, ok := v.(*ssa.BinOp)
+		if !ok {
+			return false, false
+		}
+		x, y, op := bo.X, bo.Y, bo.Op
+		if !lenPred(x) {
+			if !lenPred(y) {
+				return false, false
+			}
+			// normalise to  len OP const
+			x, y = y, x
+			switch op {
+			case token.LSS:
+				op = token.GTR
+			case token.LEQ:
+				op = token.GEQ
+			case token.GTR:
+				op = token.LSS
+			case token.GEQ:
+				op = token.LEQ
+			}
+		}
+		k, isC := constInt(y)
+		if !isC {
+			return false, false
+		}
+		switch {
+		case op == token.EQL && k == 0, op == token.LEQ && k == 0, op == token.LSS && k == 1:
+			return true, false
+		case op == token.NEQ && k == 0, op == token.GTR && k == 0, op == token.GEQ && k == 1:
+			return true, true
+		}
+		return false, false
+	}}
+}
